@@ -690,3 +690,247 @@ Section SummaryOutputs.
       + unfold ss_has_match. rewrite Hk, (finish_unsquashed cfg env _ _ (Hsq k)), Hmc. fold n. destruct n; reflexivity.
   Qed.
 End SummaryOutputs.
+
+(* ------------------------------------------------------------------ counting matches under -m N *)
+Section CountMatchesLimit.
+  Variable find_at : bytes -> nat -> option (nat * nat).
+  Variable env : senv.
+
+  Definition st_matches (o : option stats) : nat := match o with Some st => s_matches st | None => 0 end.
+  Definition st_lines (o : option stats) : nat := match o with Some st => s_matched_lines st | None => 0 end.
+
+  Section Sum.
+    Variable cfg : sconfig.
+    Hypothesis LC : line_counting env.
+    Hypothesis Hst : has_stats cfg = true.
+
+    Lemma summary_matched_stats m s :
+      sinv cfg s -> ev_ok find_at env (SMatched m) ->
+      exists s', summary_matched find_at cfg env m s
+                 = Some (s', reply_of (negb (limit_reached (sc_max cfg) (ss_match_count s + 1)))) /\
+                 ss_match_count s' = ss_match_count s + 1 /\
+                 (sinv cfg s' /\ ss_path s' = ss_path s /\ ss_wtr s' = ss_wtr s) /\
+                 st_matches (ss_stats s') = st_matches (ss_stats s) + nsub find_at env m /\
+                 st_lines (ss_stats s') = st_lines (ss_stats s) + line_count (e_lt env) (m_bytes m).
+    Proof.
+      intros Hinv Hok. unfold summary_matched. unfold line_counting in LC. rewrite LC.
+      unfold sinv in Hinv. rewrite Hst in Hinv.
+      destruct (ss_stats s) as [st|] eqn:Es; [|discriminate].
+      rewrite (find_count_ok find_at env m Hok). eexists. split; [reflexivity|].
+      cbn. unfold sinv. cbn. rewrite Hst. repeat split; lia.
+    Qed.
+
+    Lemma summary_feed_sums (q : option stats -> nat) (wt : sevent -> nat) :
+      (forall m s, sinv cfg s -> ev_ok find_at env (SMatched m) ->
+         forall s' r, summary_matched find_at cfg env m s = Some (s', r) -> q (ss_stats s') = q (ss_stats s) + wt (SMatched m)) ->
+      (forall e, is_matched e = false -> wt e = 0) ->
+      forall evs k s, Forall (ev_ok find_at env) evs -> sinv cfg s ->
+        limit_reached (sc_max cfg) (ss_match_count s) = false ->
+        exists s' rp k', feed (summary_step find_at cfg env) evs k s = Some (s', rp, k') /\ rp <> Fail /\
+          (sinv cfg s' /\ ss_path s' = ss_path s /\ ss_wtr s' = ss_wtr s) /\
+          q (ss_stats s') = q (ss_stats s) + list_sum (map wt (consumed_from (sc_max cfg) (ss_match_count s) evs)).
+    Proof.
+      intros Hq Hz evs k s Hok Hinv Hr.
+      apply (feed_limit_sum (summary_step find_at cfg env) ss_match_count (sc_max cfg)
+               (fun s' => sinv cfg s' /\ ss_path s' = ss_path s /\ ss_wtr s' = ss_wtr s) (ev_ok find_at env)
+               (fun s' => q (ss_stats s')) wt); [| |exact Hok|auto|exact Hr].
+      - intros m s0 (Hi & Hp & Hw) Hokm _. cbn [summary_step].
+        destruct (summary_matched_stats m s0 Hi Hokm) as (s' & E & Hmc & (Hi' & Hp' & Hw') & _).
+        exists s'. split; [exact E|]. split; [exact Hmc|]. split; [repeat split; congruence|].
+        exact (Hq m s0 Hi Hokm s' _ E).
+      - intros e s0 He (Hi & Hp & Hw) _ _. exists s0. rewrite (Hz e He).
+        destruct e; cbn in He; try discriminate; cbn [summary_step]; repeat split; auto; lia.
+    Qed.
+  End Sum.
+
+  (* --count-matches with any -m N, line-oriented counting: what is printed is the number of
+     submatches in the consumed prefix of the stream *)
+  Lemma finish_count_matches_output cfg fin s : sc_kind cfg = KCountMatches -> squashed env fin = false ->
+    w_out (ss_wtr (summary_finish cfg env fin s))
+    = w_out (ss_wtr s) ++
+      (if negb (sc_exclude_zero cfg) || Nat.ltb 0 (ss_match_count s)
+       then path_field cfg (ss_path s) ++ dec (st_matches (ss_stats s)) ++ lt_bytes (e_lt env) else []).
+  Proof.
+    intros Hk Hs. unfold summary_finish. cbn [ss_bin ss_match_count ss_stats ss_path ss_wtr].
+    unfold squashed in Hs. rewrite Hk.
+    destruct (f_bin fin); cbn [is_some andb] in Hs |- *; [rewrite Hs|].
+    all: destruct (negb (sc_exclude_zero cfg) || Nat.ltb 0 (ss_match_count s)); [|now rewrite app_nil_r].
+    all: unfold ss_write; cbn [ss_wtr ss_match_count ss_path ss_bin ss_stats write w_out].
+    all: rewrite write_path_field_out; cbn [ss_wtr ss_path ss_match_count ss_stats].
+    all: assert (forall o, match (match Summary.write_path_field cfg o with x => ss_stats x end) with
+                           | Some st => s_matches st | None => 0 end = st_matches (ss_stats o)) as E
+           by (intro o; unfold Summary.write_path_field; destruct (ss_path o); [destruct (sc_path_term cfg)|]; reflexivity).
+    all: rewrite E; cbn [ss_stats]; destruct (ss_stats s); cbn [st_matches];
+         repeat match goal with |- context [if ?b then _ else _] => destruct b end;
+         cbn; now rewrite <- !app_assoc.
+  Qed.
+
+  Theorem count_matches_run_output_proof cfg path w evs fins :
+    line_counting env -> Forall (ev_ok find_at env) evs -> path_present cfg path ->
+    (forall k, squashed env (fins k) = false) -> sc_kind cfg = KCountMatches ->
+    exists s, summary_run find_at cfg env path w evs fins = Some (s, true) /\
+      w_out (ss_wtr s) = w_out w ++
+        (if negb (sc_exclude_zero cfg) || Nat.ltb 0 (limited (sc_max cfg) (count_matched evs))
+         then path_field cfg (spath cfg path)
+              ++ dec (count_submatches find_at env (consumed (sc_max cfg) evs)) ++ lt_bytes (e_lt env)
+         else []).
+  Proof.
+    intros LC Hok Hp Hsq Hk.
+    assert (has_stats cfg = true) as Hst by (unfold has_stats; rewrite Hk; apply orb_true_r).
+    unfold summary_run, run_sink. rewrite (summary_begin_go cfg path w Hp).
+    pose proof (summary_begin_inv cfg _ (summary_sink_inv cfg path w)) as Hinv.
+    rewrite (summary_begin_go cfg path w Hp) in Hinv. cbn [fst] in Hinv.
+    assert (st_matches (ss_stats (summary_sink cfg path w)) = 0) as Hz0.
+    { unfold summary_sink. cbn [ss_stats]. unfold has_stats in Hst. rewrite Hst. reflexivity. }
+    assert (forall m s0, sinv cfg s0 -> ev_ok find_at env (SMatched m) -> forall s2 r,
+              summary_matched find_at cfg env m s0 = Some (s2, r) ->
+              st_matches (ss_stats s2) = st_matches (ss_stats s0) + nsub_ev find_at env (SMatched m)) as HQ.
+    { intros m s0 Hi0 Hokm s2 r E2. destruct (summary_matched_stats cfg LC Hst m s0 Hi0 Hokm) as (s3 & E3 & _ & _ & Hq3 & _).
+      rewrite E3 in E2. inversion E2; subst. exact Hq3. }
+    assert (forall e, is_matched e = false -> nsub_ev find_at env e = 0) as HZ
+      by (intros e He; destruct e; cbn in He; try discriminate; reflexivity).
+    set (s0 := mkSS (spath cfg path) 0 None (ss_stats (summary_sink cfg path w)) (reset_count w)) in *.
+    destruct (sc_max cfg) as [[|L]|] eqn:Emax.
+    - eexists. split; [reflexivity|].
+      rewrite (finish_count_matches_output cfg _ _ Hk (Hsq 0)). unfold s0.
+      cbn [ss_wtr ss_match_count ss_path ss_stats w_out reset_count].
+      rewrite Hz0. cbn [limited consumed Nat.min]. reflexivity.
+    - destruct (summary_feed_counting find_at cfg env evs 0 s0 LC (or_intror Hst) Hok Hinv)
+        as (s1 & rp1 & k1 & E1 & Hrp1 & (Hi1 & Hpa & Hw) & Hmc); [rewrite Emax; reflexivity|].
+      destruct (summary_feed_sums cfg LC Hst st_matches (nsub_ev find_at env) HQ HZ evs 0 s0 Hok Hinv)
+        as (s' & rp & k' & E & _ & _ & Hq); [rewrite Emax; reflexivity|].
+      rewrite E1 in E. inversion E; subst s' rp k'. clear E.
+      rewrite E1. rewrite Emax in Hmc, Hq.
+      eexists. split; [destruct rp1; [reflexivity|reflexivity|congruence]|].
+      rewrite (finish_count_matches_output cfg _ _ Hk (Hsq _)), Hw, Hpa, Hmc, Hq. unfold s0.
+      cbn [ss_wtr ss_path ss_stats ss_match_count w_out reset_count]. rewrite Hz0. cbn [Nat.add consumed limited]. reflexivity.
+    - destruct (summary_feed_counting find_at cfg env evs 0 s0 LC (or_intror Hst) Hok Hinv)
+        as (s1 & rp1 & k1 & E1 & Hrp1 & (Hi1 & Hpa & Hw) & Hmc); [rewrite Emax; reflexivity|].
+      destruct (summary_feed_sums cfg LC Hst st_matches (nsub_ev find_at env) HQ HZ evs 0 s0 Hok Hinv)
+        as (s' & rp & k' & E & _ & _ & Hq); [rewrite Emax; reflexivity|].
+      rewrite E1 in E. inversion E; subst s' rp k'. clear E.
+      rewrite E1. rewrite Emax in Hmc, Hq.
+      eexists. split; [destruct rp1; [reflexivity|reflexivity|congruence]|].
+      rewrite (finish_count_matches_output cfg _ _ Hk (Hsq _)), Hw, Hpa, Hmc, Hq. unfold s0.
+      cbn [ss_wtr ss_path ss_stats ss_match_count w_out reset_count]. rewrite Hz0. cbn [Nat.add consumed limited]. reflexivity.
+  Qed.
+End CountMatchesLimit.
+
+Section JsonLimit.
+  Variable find_at : bytes -> nat -> option (nat * nat).
+  Variable env : senv.
+  Variable cfg : jconfig.
+
+  Lemma json_matched_sums (Hwait : no_after_wait env (j_max cfg)) m s : jinv cfg s -> ev_ok find_at env (SMatched m) ->
+    exists s', json_matched find_at cfg env m s
+               = Some (s', reply_of (negb (limit_reached (j_max cfg) (js_match_count s + 1)))) /\
+      js_match_count s' = js_match_count s + 1 /\ jinv cfg s' /\
+      s_matches (js_stats s') = s_matches (js_stats s) + nsub find_at env m /\
+      json_submatch_total (js_out s') = json_submatch_total (js_out s) + nsub find_at env m.
+  Proof.
+    intros Hi [Hokm Hb]. unfold json_matched.
+    destruct (json_record_matches_total find_at env (m_buf m) (m_rs m) (m_re m) Hokm Hb) as (l & Hl & ->).
+    destruct (wbm_fields s) as [E1 E2]. rewrite E1, E2.
+    destruct (wbm_total s) as [T1 T2].
+    assert (j_max cfg = None \/
+            (if js_more_than_limit cfg (js_match_count s + 1) then js_after_rem s - 1 else e_after env) = 0) as Har.
+    { destruct Hi as [Hi|Hi]; [now left|]. destruct Hwait as [Hw|Hw]; [now left|right].
+      destruct (js_more_than_limit cfg (js_match_count s + 1)); lia. }
+    eexists. split; [rewrite (js_should_quit_reached cfg _ _ Har); reflexivity|].
+    cbn [js_match_count js_stats js_out]. split; [reflexivity|]. split; [unfold jinv; cbn [js_after_rem]; exact Har|].
+    rewrite json_submatch_total_app, json_submatch_total_one, T1, T2. cbn [msg_subs s_matches add_matched_lines add_matches].
+    unfold submatches_new. rewrite map_length. unfold nsub. rewrite Hl. split; lia.
+  Qed.
+
+  Lemma json_other_step e s : is_matched e = false -> jinv cfg s -> ev_ok find_at env e ->
+    limit_reached (j_max cfg) (js_match_count s) = false ->
+    exists s', json_step find_at cfg env e s = Some (s', Go) /\ js_match_count s' = js_match_count s /\ jinv cfg s' /\
+      s_matches (js_stats s') = s_matches (js_stats s) /\
+      json_submatch_total (js_out s') = json_submatch_total (js_out s).
+  Proof.
+    intros He Hi Hoke Hr0. destruct e as [m|c| |off]; cbn in He; try discriminate; cbn [json_step].
+    - unfold json_context. destruct (wbm_fields s) as [E1 E2]. rewrite E1, E2. destruct (wbm_total s) as [T1 T2].
+      assert (exists ms, (if e_invert env then json_record_matches find_at env (c_bytes c) 0 (length (c_bytes c))
+                          else Some []) = Some ms) as [ms ->].
+      { destruct (e_invert env); [|eauto].
+        destruct (json_record_matches_total find_at env (c_bytes c) 0 (length (c_bytes c)) Hoke (le_n _)) as (l & _ & ->). eauto. }
+      assert (j_max cfg = None \/
+              (match c_kind c with CAfter => js_after_rem s - 1 | _ => js_after_rem s end) = 0) as Har.
+      { destruct Hi as [Hi|Hi]; [now left|right]. destruct (c_kind c); lia. }
+      eexists. rewrite (js_should_quit_reached cfg _ _ Har). unfold reached. fold (limit_reached (j_max cfg) (js_match_count s)).
+      rewrite Hr0. split; [reflexivity|]. cbn [js_match_count js_stats js_out].
+      split; [reflexivity|]. split; [unfold jinv; cbn [js_after_rem]; exact Har|].
+      rewrite json_submatch_total_app, json_submatch_total_one, T1, T2. cbn [msg_subs]. split; lia.
+    - exists s. auto.
+    - exists s. auto.
+  Qed.
+
+  Theorem json_run_submatches_proof path evs fins :
+    no_after_wait env (j_max cfg) -> Forall (ev_ok find_at env) evs ->
+    exists s, json_run find_at cfg env path evs fins = Some (s, true) /\
+      s_matches (js_stats s) = count_submatches find_at env (consumed (j_max cfg) evs) /\
+      json_submatch_total (js_out s) = count_submatches find_at env (consumed (j_max cfg) evs).
+  Proof.
+    intros Hwait Hok. unfold json_run, run_sink, json_begin.
+    cbn [json_sink js_path js_begin_printed js_stats js_matches js_out].
+    pose proof (json_matched_sums Hwait) as JM. pose proof json_other_step as JO. clear Hwait.
+    pose proof (fun q Hm Ho s => feed_limit_sum (json_step find_at cfg env) js_match_count (j_max cfg) (jinv cfg)
+                      (ev_ok find_at env) q (nsub_ev find_at env) Hm Ho evs 0 s Hok) as F.
+    assert (forall fin s0, s_matches (js_stats (json_finish fin s0)) = s_matches (js_stats s0) /\
+                           json_submatch_total (js_out (json_finish fin s0)) = json_submatch_total (js_out s0)) as Hfin.
+    { intros fin s0. unfold json_finish. destruct (negb (js_begin_printed s0)); [auto|].
+      cbn [js_stats js_out]. rewrite json_submatch_total_app, json_submatch_total_one. cbn [msg_subs].
+      destruct (Nat.ltb 0 (js_match_count s0)); cbn; split; lia. }
+    destruct (j_max cfg) as [[|L]|] eqn:Emax.
+    - eexists. split; [reflexivity|]. destruct (Hfin (fins 0) (mkJS path 0 0 None false stats_new [] [])) as [-> ->].
+      cbn. auto.
+    - set (s0 := if negb (j_always_begin_end cfg) then _ else _).
+      assert (js_match_count (fst s0) = 0 /\ js_after_rem (fst s0) = 0 /\ snd s0 = Go /\
+              s_matches (js_stats (fst s0)) = 0 /\ json_submatch_total (js_out (fst s0)) = 0) as (H0 & H1 & H2 & H3 & H4).
+      { unfold s0. destruct (negb (j_always_begin_end cfg)); cbn; auto. }
+      destruct s0 as [s1 r1]. cbn [fst snd] in *. subst r1.
+      destruct (F (fun s => s_matches (js_stats s))) with (s := s1) as (sa & rpa & ka & Ea & Hrpa & _ & Hqa).
+      { intros m s Hi Hokm _. cbn [json_step].
+        destruct (JM m s Hi Hokm) as (s' & E & A & B & C & D). exists s'. auto. }
+      { intros e s He Hi Hoke Hr.
+        destruct (JO e s He Hi Hoke Hr) as (s' & E & A & B & C & D). exists s'.
+        replace (nsub_ev find_at env e) with 0 by (destruct e; cbn in He; try discriminate; reflexivity).
+        repeat split; auto; lia. }
+      { right. exact H1. } { rewrite H0. reflexivity. }
+      destruct (F (fun s => json_submatch_total (js_out s))) with (s := s1) as (sb & rpb & kb & Eb & _ & _ & Hqb).
+      { intros m s Hi Hokm _. cbn [json_step].
+        destruct (JM m s Hi Hokm) as (s' & E & A & B & C & D). exists s'. auto. }
+      { intros e s He Hi Hoke Hr.
+        destruct (JO e s He Hi Hoke Hr) as (s' & E & A & B & C & D). exists s'.
+        replace (nsub_ev find_at env e) with 0 by (destruct e; cbn in He; try discriminate; reflexivity).
+        repeat split; auto; lia. }
+      { right. exact H1. } { rewrite H0. reflexivity. }
+      rewrite Ea in Eb. inversion Eb; subst sb rpb kb. rewrite Ea.
+      eexists. split; [destruct rpa; [reflexivity|reflexivity|congruence]|].
+      destruct (Hfin (fins (1 + ka)) sa) as [-> ->]. rewrite Hqa, Hqb, H0, H3, H4. cbn [consumed Nat.add]. auto.
+    - set (s0 := if negb (j_always_begin_end cfg) then _ else _).
+      assert (js_match_count (fst s0) = 0 /\ js_after_rem (fst s0) = 0 /\ snd s0 = Go /\
+              s_matches (js_stats (fst s0)) = 0 /\ json_submatch_total (js_out (fst s0)) = 0) as (H0 & H1 & H2 & H3 & H4).
+      { unfold s0. destruct (negb (j_always_begin_end cfg)); cbn; auto. }
+      destruct s0 as [s1 r1]. cbn [fst snd] in *. subst r1.
+      destruct (F (fun s => s_matches (js_stats s))) with (s := s1) as (sa & rpa & ka & Ea & Hrpa & _ & Hqa).
+      { intros m s Hi Hokm _. cbn [json_step].
+        destruct (JM m s Hi Hokm) as (s' & E & A & B & C & D). exists s'. auto. }
+      { intros e s He Hi Hoke Hr.
+        destruct (JO e s He Hi Hoke Hr) as (s' & E & A & B & C & D). exists s'.
+        replace (nsub_ev find_at env e) with 0 by (destruct e; cbn in He; try discriminate; reflexivity).
+        repeat split; auto; lia. }
+      { right. exact H1. } { reflexivity. }
+      destruct (F (fun s => json_submatch_total (js_out s))) with (s := s1) as (sb & rpb & kb & Eb & _ & _ & Hqb).
+      { intros m s Hi Hokm _. cbn [json_step].
+        destruct (JM m s Hi Hokm) as (s' & E & A & B & C & D). exists s'. auto. }
+      { intros e s He Hi Hoke Hr.
+        destruct (JO e s He Hi Hoke Hr) as (s' & E & A & B & C & D). exists s'.
+        replace (nsub_ev find_at env e) with 0 by (destruct e; cbn in He; try discriminate; reflexivity).
+        repeat split; auto; lia. }
+      { right. exact H1. } { reflexivity. }
+      rewrite Ea in Eb. inversion Eb; subst sb rpb kb. rewrite Ea.
+      eexists. split; [destruct rpa; [reflexivity|reflexivity|congruence]|].
+      destruct (Hfin (fins (1 + ka)) sa) as [-> ->]. rewrite Hqa, Hqb, H0, H3, H4. cbn [consumed Nat.add]. auto.
+  Qed.
+End JsonLimit.
